@@ -34,6 +34,23 @@ pub fn adapt(h: &LoopHandle<'static, ()>, kind: AdaptFd, ctx: Ctx) {
     let r = h.adapt_io(fdx);
     let after = snapshot(h);
     let _ = ctx;
+    // half of the adapters get used: one poll of readable() with a no-op waker arms the one-shot
+    // registration, and a byte from the peer makes it fire in the next dispatch
+    let r = r.map(|mut a| {
+        if raw % 2 == 0 {
+            use std::future::Future;
+            let wk = futures::task::noop_waker();
+            let mut cx = std::task::Context::from_waker(&wk);
+            let mut fut = Box::pin(a.readable());
+            let _ = fut.as_mut().poll(&mut cx);
+            drop(fut);
+            if let Some(p) = peer.as_ref() {
+                sysx::write_fd(p.as_raw_fd(), b"x");
+            }
+            w(|w| w.count("adapter_armed_and_made_ready"));
+        }
+        a
+    });
     match r {
         Ok(a) => w(|w| {
             if expect_fail {
